@@ -22,12 +22,12 @@ Section Proofs.
   Notation read_packet := (read_packet current_variant MaxBody inflate json_norm).
   Notation read_all := (read_all current_variant MaxBody inflate json_norm).
   Notation read_stream := (read_stream current_variant MaxBody inflate json_norm).
-  Notation parse_packet := (parse_packet MaxBody inflate json_norm).
-  Notation parse_all := (parse_all MaxBody inflate json_norm).
-  Notation parse_stream := (parse_stream MaxBody inflate json_norm).
+  Notation parse_packet := (parse_packet current_variant MaxBody inflate json_norm).
+  Notation parse_all := (parse_all current_variant MaxBody inflate json_norm).
+  Notation parse_stream := (parse_stream current_variant MaxBody inflate json_norm).
   Notation encode := (encode current_variant deflate).
   Notation encode_all := (encode_all current_variant deflate).
-  Notation finish := (finish inflate json_norm).
+  Notation finish := (finish current_variant MaxBody inflate json_norm).
 
   Definition is_pok (x : pres) : bool := match x with POk _ _ _ => true | _ => false end.
 
@@ -118,6 +118,7 @@ Section Proofs.
   Definition wf_packet (cp : bool * packet) : Prop :=
     p_ty (snd cp) < 64 /\
     lenN (wire_body deflate (fst cp) (snd cp)) <= MaxBody /\
+    lenN (p_body (snd cp)) <= MaxBody /\
     (is_json_cmd (p_ty (snd cp)) = true -> json_norm (p_body (snd cp)) = Some (p_body (snd cp))).
 
   Definition expect (cp : bool * packet) : pres :=
@@ -152,7 +153,7 @@ Section Proofs.
   Lemma parse_packet_encode cp tail : wf_packet cp ->
     parse_packet (encode (fst cp) (snd cp) ++ tail) = (expect cp, tail).
   Proof.
-    destruct cp as [c p]. unfold wf_packet, expect. cbn [fst snd]. intros (Hty & Hlen & Hjs).
+    destruct cp as [c p]. unfold wf_packet, expect. cbn [fst snd]. intros (Hty & Hlen & Hraw & Hjs).
     destruct (flag_facts (p_ty p) Hty) as (F1 & F2 & F3 & F4 & F5 & F6).
     unfold Framing.encode. cbn [v_omit_empty_len current_variant andb].
     destruct (is_heartbeat (wire_ty c p)) eqn:Ehb.
@@ -172,7 +173,8 @@ Section Proofs.
     rewrite skipn_app, Nat.sub_diag, skipn_all. cbn [skipn app].
     f_equal. unfold Framing.finish, body, wire_ty, wire_body in *.
     destruct c.
-    - rewrite F2, F4, inflate_deflate, F6.
+    - rewrite F2, F4, inflate_deflate, F6. cbn [v_unbounded_inflate current_variant negb andb].
+      destruct (N.ltb_spec MaxBody (lenN (p_body p))) as [Hx|_]; [lia|].
       destruct (is_json_cmd (p_ty p)); [rewrite (Hjs eq_refl)|]; reflexivity.
     - rewrite F1, F3. destruct (is_json_cmd (p_ty p)); [rewrite (Hjs eq_refl)|]; reflexivity.
   Qed.
